@@ -1,26 +1,24 @@
 #!/bin/bash
-# tools/regress.sh [tier]: re-runs every seeded change (seeded/*/patch.diff) and every own demonstration
-# patch (mutants/*.diff) against the check that is supposed to catch it, in scratch worktrees, and
-# writes seeded/RESULTS.md. Every line must say DETECTED; anything else is a regression of a check.
-tier=${1:-quick}
+# tools/regress.sh [tier] [workers]: re-runs every seeded change (seeded/*/patch.diff) and every audit / demonstration patch
+# (mutants/*.diff) against the check that is supposed to catch it, in scratch worktrees (never /repo), and writes
+# seeded/RESULTS.md. Every line must say DETECTED; anything else is a regression of a check.
+tier=${1:-quick}; P=${2:-4}
 cd /verif
-out=seeded/RESULTS.md
+list=.work/regress.list; : > $list
+for d in seeded/*/; do
+  [ -f $d/patch.diff ] || continue
+  id=$(python3 -c "import json;m=json.load(open('$d/meta.json'));print(m.get('checked_with',m['property']))")
+  echo "$id ${d}patch.diff" >> $list
+done
+for p in mutants/*.diff; do
+  n=$(basename $p .diff); echo "$(echo $n | cut -c1-3 | tr a-z A-Z) $p" >> $list
+done
+tools/mutbatch.sh .work/regress.res $tier $P < $list
 {
 echo "# Detection regression ($(date -u +%Y-%m-%dT%H:%MZ), tier $tier, /repo at $(git -C /repo rev-parse --short HEAD))"
 echo
 echo "| change | check | result |"
 echo "|---|---|---|"
-for d in seeded/*/; do
-  n=$(basename $d); [ -f $d/patch.diff ] || continue
-  id=$(python3 -c "import json;m=json.load(open('$d/meta.json'));print(m.get('checked_with',m['property']))")
-  r=$(tools/mutant.sh $id $d/patch.diff $tier 2>&1 | tail -1 | cut -c1-160 | tr '|' '/')
-  echo "| seeded/$n | $id | $r |"
-done
-for p in mutants/*.diff; do
-  n=$(basename $p .diff); id=$(echo $n | cut -c1-3 | tr a-z A-Z)
-  r=$(tools/mutant.sh $id $p $tier 2>&1 | tail -1 | cut -c1-160 | tr '|' '/')
-  echo "| mutants/$n | $id | $r |"
-done
-} > $out.tmp
-mv $out.tmp $out
-grep -c DETECTED $out; grep -v DETECTED $out | grep "^| " | grep -v "^| change\|^|---" 
+awk '{id=$1; f=$2; $1="";$2="";$3=""; r=substr($0,4); gsub(/\|/,"/",r); printf "| %s | %s | %s |\n", f, id, substr(r,1,170)}' .work/regress.res
+} > seeded/RESULTS.md
+echo "detected: $(grep -c DETECTED .work/regress.res) of $(wc -l < $list)"; grep -v DETECTED .work/regress.res | cut -c1-200
